@@ -221,7 +221,7 @@ class LoopCtx:
 
 
 class Interp:
-    def __init__(self, timeout_ms=30000, feas_timeout_ms=5000):
+    def __init__(self, timeout_ms=240000, feas_timeout_ms=10000):
         self.summaries = {}    # 'module:qualname' -> callable(interp, args, kwargs)
         self.native_summaries = {}   # (module, qualname) of a package function object (e.g. a decorated serialiser) -> callable(interp, f, args, kwargs)
         self.loopspecs = {}    # ('module:qualname', ordinal) -> LoopSpec
